@@ -18,7 +18,7 @@ ID = "C18"
 RULE = (
     "closed meshes {tetra, cube, octa, prism, cubesplit, pyr4..8, cs2, icosa}, kilometre-scale quad patches (0.002-degree cells: mid-latitude, across the antimeridian, next to the pole) and every non-empty face subset of the meshes with <= 8 faces x index deviations <= k "
     "(node relabelling, face order, start corner) x placements {as is, a node rotated onto the north pole, onto the south pole, onto lon=180 lat=0, generic tilt} x data "
-    "{identity, generic; face- and node-centred; leading dims (), (2); element dimension last, first and in the middle}; JIT on, and a JIT-off pass in a separate interpreter. non-trivial = mesh with a node of "
+    "{identity, generic; face- and node-centred; leading dims (), (2); element dimension last, first and in the middle}; each mesh also dualised after its mirror image / a rotated copy / its face-order-reversed copy in the same execution (and vice versa); JIT on, and a JIT-off pass in a separate interpreter. non-trivial = mesh with a node of "
     "valence >= 4 or a partial grid with both interior and boundary nodes; distinct = (mesh/subset, deviation, placement)"
 )
 ASSUMPTIONS = [
@@ -198,6 +198,8 @@ def cases(tier):
             out.append({"kind": "subsets", "mesh": name})
     for name in (["cube", "pyr5", "octa", "cubesplit"] if quick else CLOSED):
         out.append({"kind": "placements", "mesh": name})
+    for name in (["cube", "pyr5", "cubesplit", "icosa"] if quick else CLOSED):
+        out.append({"kind": "after", "mesh": name})
     # kilometre-scale partial meshes (cells of 0.002 degrees; also across the antimeridian and next to the pole)
     for name in FINE:
         out.append({"kind": "mesh", "mesh": name, "k": 0 if quick else 1, "cap": 10})
@@ -280,6 +282,41 @@ def run_case(case):
                     inc[n] = inc.get(n, 0) + 1
             one(m, dict(case, only=ids), "faces %s of %s" % (ids, case["mesh"]), any(v >= 3 for v in inc.values()) and len(ids) < F)
         res["axes"] = {"subsets_of": {case["mesh"]: res["evaluations"]}, "jit": {jit: res["evaluations"]}}
+    elif case["kind"] == "after":
+        # the grid under test is dualised AFTER another grid in the same execution: its mirror image (identical node-face incidence,
+        # opposite orientation), a rotated copy, the same mesh with reversed face order -- and vice versa
+        def mirror(m):
+            mm = meshes.Mesh(m.name + "/mirror", [(p[0], p[1], -p[2]) for p in m.points], [tuple(f[::-1]) for f in m.faces], m.closed, m.tags)
+            return mm
+
+        others = {
+            "mirror": mirror(base),
+            "rotated": base.transform(meshes.rot_axis((1.0, 2.0, 0.5), 77.0), base.name + "/rot"),
+            "face-order-reversed": base.reorder_faces(list(range(base.n_face))[::-1], base.name + "/rev"),
+        }
+        for oname, om in others.items():
+            om.closed = base.closed
+            for first, second, tag in ((om, base, oname + " first"), (base, om, "base first, then " + oname)):
+                foc = {"other": oname, "order": tag}
+                if "only" in case and foc != case["only"]:
+                    continue
+                pool.fresh()
+                try:
+                    build.grid(first).get_dual()
+                except Exception:
+                    pass
+                g = build.grid(second)
+                n0 = len(V)
+                d = check_dual(g, second, V, dict(case, only=foc))
+                for v in V[n0:]:
+                    v["sig"] = v["sig"].replace("c18:", "c18:after-other-grid:", 1)
+                    v["msg"] = "mesh %s dualised after another grid (%s): %s" % (case["mesh"], tag, v["msg"])
+                res["evaluations"] += 1
+                res["transitions"] += 2
+                key = digest((case["mesh"], "after", oname, tag))
+                res["states"].append(key)
+                res["nontrivial"].append(key)
+        res["axes"] = {"after_other_grid": {case["mesh"]: res["evaluations"]}}
     else:
         for pname, R in _placements(base):
             if "only" in case and pname != case["only"]:
